@@ -242,10 +242,19 @@ PROPS = {
                     dict(name="LikePinTrim", module="LikeMC.tla", cfg="LikePinTrim.cfg", expect_violation="Refines"),
                     dict(name="LikePinAnchor", module="LikeMC.tla", cfg="LikePinAnchor.cfg", expect_violation="Refines"),
                     dict(name="LikeEmit", module="LikeMC.tla", cfg="LikeEmit.cfg", emit=True, id_base=1000000),
-                    dict(name="LikeDeep", module="LikeMC.tla", cfg="LikeDeep.cfg", tier="thorough", timeout=1800)],
+                    dict(name="LikeDeep", module="LikeMC.tla", cfg="LikeDeep.cfg", tier="thorough", timeout=1800),
+                    dict(name="UpperBufMC", module="UpperBuf.tla", cfg="UpperBufMC.cfg", timeout=900),
+                    dict(name="UpperBufGrow", module="UpperBuf.tla", cfg="UpperBufGrow.cfg", timeout=900),
+                    dict(name="UpperBufPinGrow", module="UpperBuf.tla", cfg="UpperBufPinGrow.cfg", expect_violation="NoOverrun"),
+                    dict(name="UpperBufEmit", module="UpperBuf.tla", cfg="UpperBufEmit.cfg", emit=True, id_base=2000000),
+                    dict(name="UpperBufEmitGrow", module="UpperBuf.tla", cfg="UpperBufEmitGrow.cfg", emit=True, id_base=3000000),
+                    dict(name="UpperBufDeep", module="UpperBuf.tla", cfg="UpperBufDeep.cfg", tier="thorough", timeout=3000)],
                 text="LikeMC.tla transcribes NewMatcher's selection (regular expression / contains / suffix / prefix / exact, upper-casing for ilike, one % trimmed at each end) and checks it against the property's wording "
                      "(a body occurring at a position constrained by the % at either end; '.' as the only metacharacter of a toy alphabet) for every pattern and cell of up to 3 (4 thorough) characters; greedy trimming and forgotten anchors must fail; "
                      "every pattern is run on the real library on a string and an enum column holding every cell of up to two characters and a null. "
+                     "UpperBuf.tla models the buffer-reusing upper-casing (prefix copy at the first changed rune, direct store of ASCII results, one doubling when fewer than UTFMax bytes are left) over strings of rune classes "
+                     "(byte width, width of the upper-case form, changed or not) and histories of three calls on one buffer: no write beyond the buffer, every rune written where the forms before it end; a doubling test without UTFMax must overrun; "
+                     "every string of up to 3 rune classes (and of up to 6 expanding ones) is matched by the real ilike twice in one call with a buffer-growing cell in between. "
                      "like / ilike filters over valid UTF-8 cells (ASCII, multi-byte, code points whose upper case has another byte length such as U+0131, U+017F, U+0250, the C1 control U+0080, "
                      "cell lengths around the matcher's 10-byte buffer and its doublings, many cells per call) and patterns of every class (no %, leading, trailing, both, only %, empty, "
                      "regular-expression metacharacters, invalid regex), on a string column and on an enum column holding the same values, are executed on the real library; TLC decides the kept rows with "
